@@ -1,7 +1,243 @@
-import Vgi.Model.ShmSession
-namespace Vgi.Props.C36
-open Vgi Vgi.Shm Vgi.ShmSession
+import Vgi.Proofs.ShmSession
+/-!
+# C36 — Shared-memory pipe sessions match plain pipe sessions and leak no slots
 
-theorem placeholder_ensure_none (c : Option Nat) : ensure c .none = (c, c) := rfl
+Theorems about `Vgi.ShmSession` (model of the shared-memory handling of `serveOne`, `serveUnary`,
+`serveStream` together with the client's release discipline), for ALL call histories: any number
+and size of client segments, any interleaving of unary calls, exchange and producer streams, any
+advertisement on any request, any batch sizes/estimates/size-gate outcomes, any scripted handler
+outcomes, pointers released at once or held until a later `release`.
+-/
+namespace Vgi.Props.C36
+open Vgi Vgi.Shm Vgi.ShmSession Vgi.Proofs.ShmSession Vgi.Props.C34
+
+/-- A session start: `sizes.length` fresh client segments, nothing attached, nothing held. -/
+def freshSegs : List Nat → Segs
+  | [] => Segs.empty
+  | d :: r => (freshSegs r).push (SegSt.create d)
+
+def freshWorld (sizes : List Nat) : World := { segs := freshSegs sizes, cached := none, held := [] }
+
+theorem segInv_create (d : Nat) : SegInv (SegSt.create d) :=
+  ⟨create_wf d, by simp [SegSt.create, Vgi.Shm.create]⟩
+
+theorem fresh_inv : ∀ (sizes : List Nat), SInv (freshSegs sizes) ∧ Acc (freshSegs sizes) []
+  | [] => ⟨fun k hk => absurd hk (by simp [freshSegs, Segs.empty]), fun k hk => absurd hk (by simp [freshSegs, Segs.empty])⟩
+  | d :: r => by
+    obtain ⟨h1, h2⟩ := fresh_inv r
+    constructor
+    · intro k hk
+      simp only [freshSegs, Segs.push] at hk ⊢
+      by_cases h : k = (freshSegs r).n
+      · simp [h, segInv_create]
+      · simp only [h, if_false]; exact h1 k (by omega)
+    · intro k hk e he
+      simp only [freshSegs, Segs.push] at hk he
+      by_cases h : k = (freshSegs r).n
+      · simp [h, SegSt.create] at he
+      · simp only [h, if_false] at he; exact h2 k (by omega) e he
+
+/-- The session-level invariant. -/
+def Good (w : World) : Prop := SInv w.segs ∧ Acc w.segs w.held
+
+theorem good_fresh (sizes : List Nat) : Good (freshWorld sizes) := fresh_inv sizes
+
+theorem runAll_cons (w : World) (c : Call) (rest : List Call) :
+    runAll w (c :: rest) =
+      ((runAll (runCall w c).1 rest).1, (runCall w c).2 ++ (runAll (runCall w c).1 rest).2) := rfl
+
+theorem runAll_good : ∀ (calls : List Call) (w : World), (∀ c ∈ calls, c.wellBehaved = true) → Good w →
+    Good (runAll w calls).1 ∧ (runAll w calls).2.map Item.view = calls.flatMap plainItems ∧
+      (runAll w calls).1.segs.n = w.segs.n
+  | [], w, _, hg => ⟨hg, rfl, rfl⟩
+  | c :: rest, w, hwb, hg => by
+    obtain ⟨h1, h2, h3, h4⟩ := runCall_spec w c (hwb c (by simp)) hg.1 hg.2
+    obtain ⟨g, v, n⟩ := runAll_good rest (runCall w c).1 (fun c' hc => hwb c' (by simp [hc])) ⟨h2, h3⟩
+    rw [runAll_cons]
+    exact ⟨g, by simp [h4, v], by simp only []; omega⟩
+
+theorem runAll_append : ∀ (a b : List Call) (w : World),
+    runAll w (a ++ b) = ((runAll (runAll w a).1 b).1, (runAll w a).2 ++ (runAll (runAll w a).1 b).2)
+  | [], b, w => by simp [runAll]
+  | c :: a, b, w => by
+    rw [List.cons_append, runAll_cons, runAll_cons, runAll_append a b]
+    simp
+
+theorem freshSegs_n : ∀ sizes : List Nat, (freshSegs sizes).n = sizes.length
+  | [] => rfl
+  | d :: r => by simp [freshSegs, Segs.push, freshSegs_n r]
+
+theorem runAll_plain : ∀ (calls : List Call) (w : World),
+    (runAll w (calls.map Call.plain)).2 = calls.flatMap plainItems
+  | [], _ => rfl
+  | c :: rest, w => by
+    rw [List.map_cons, runAll_cons, runCall_plain, List.flatMap_cons]
+    show plainItems c ++ (runAll _ (rest.map Call.plain)).2 = _
+    rw [runAll_plain rest]
+
+/-- **shm_transparent**: a session whose client advertises segments, sends requests and stream
+inputs through them and receives results through them, shows the client exactly the results —
+same batches, same errors, same order — of the same history run by a client that never mentions
+shared memory, whatever state (`w'`) that other connection is in. -/
+theorem shm_transparent (calls : List Call) (w w' : World)
+    (hwb : ∀ c ∈ calls, c.wellBehaved = true) (hg : Good w) :
+    (runAll w calls).2.map Item.view = (runAll w' (calls.map Call.plain)).2.map Item.view := by
+  have h := (runAll_good calls w hwb hg).2.1
+  have idem : ∀ i : Item, i.view.view = i.view := by intro i; cases i <;> rfl
+  rw [runAll_plain, ← h, List.map_map]
+  apply List.map_congr_left
+  intro i _
+  exact (idem i).symm
+
+/-- **no_leak**: when the history is over and the client has released every pointer it received,
+the allocation table of every segment is empty — every slot the server allocated was handed to the
+client, every slot the client allocated was freed by the server that resolved it (or taken back by
+the client when the call was refused first). -/
+theorem no_leak (sizes : List Nat) (calls : List Call) (hwb : ∀ c ∈ calls, c.wellBehaved = true) :
+    ∀ k, k < sizes.length →
+      ((runAll (freshWorld sizes) (calls ++ [.release])).1.segs.get k).seg.table = [] ∧
+      ((runAll (freshWorld sizes) (calls ++ [.release])).1.segs.get k).cont = [] := by
+  intro k hk
+  obtain ⟨hg, _, hn⟩ := runAll_good calls (freshWorld sizes) hwb (good_fresh sizes)
+  rw [runAll_append]
+  simp only [runAll_cons, runAll, runCall]
+  -- the last step releases everything held
+  obtain ⟨r1, r2, r3⟩ := releaseAll_spec (runAll (freshWorld sizes) calls).1.held
+    (runAll (freshWorld sizes) calls).1.segs [] hg.1 (by simpa using hg.2)
+  have hk' : k < (releaseAll (runAll (freshWorld sizes) calls).1.segs (runAll (freshWorld sizes) calls).1.held).n := by
+    rw [r1, hn]; simpa [freshWorld, freshSegs_n] using hk
+  have hc : ((releaseAll (runAll (freshWorld sizes) calls).1.segs (runAll (freshWorld sizes) calls).1.held).get k).cont = [] := by
+    rw [List.eq_nil_iff_forall_not_mem]
+    intro e he
+    have := r3 k hk' e he
+    simp at this
+  refine ⟨?_, hc⟩
+  have hp := (r2 k hk').2
+  rw [hc] at hp
+  simpa using hp
+
+/-! ### Pointers the server cannot resolve -/
+
+/-- **unadvertised_request_pointer_refused**: whenever no segment is attached after reading the
+request's own segment keys — never advertised, advertised with a bad size or without a size, or
+not attachable — a pointer request of any shape is refused before dispatch, nothing is touched. -/
+theorem unadvertised_request_pointer_refused (segs : Segs) (cached : Option Nat) (adv : Adv) (wire : Wire)
+    (hnone : (ensure cached adv).1 = none) (hp : wire.isPtr = true) :
+    serveShm segs cached adv wire = (segs, (ensure cached adv).2, none) := by
+  unfold serveShm
+  cases he : ensure cached adv with
+  | mk seg c' =>
+    rw [he] at hnone; simp only [] at hnone; subst hnone
+    cases wire with
+    | inline b => simp [Wire.isPtr] at hp
+    | ptr k off len => simp [serverTake]
+    | bad => simp [serverTake]
+
+/-- on a connection with nothing attached, every advertisement except a good one leaves it so -/
+theorem ensure_none_of_not_good (adv : Adv) (h : ∀ k, adv ≠ .good k) : ensure none adv = (none, none) := by
+  cases adv with
+  | good k => exact absurd rfl (h k)
+  | _ => rfl
+
+/-- **unadvertised_pointer_is_error_and_session_continues** (unary): on a connection that has no
+segment attached, a pointer request is answered with exactly one `IOError`, and the connection,
+the segments and the client's bookkeeping are exactly as before — so the rest of the session is
+served as if the call had not happened. -/
+theorem unadvertised_pointer_is_error_and_session_continues (w : World) (adv : Adv) (param : B)
+    (outcome : Outcome) (hold : Bool) (rest : List Call)
+    (hc : w.cached = none) (hadv : ∀ k, adv ≠ .good k) :
+    runCall w (.unary adv param .raw outcome hold) = (w, [.err ioError]) ∧
+    runAll w (.unary adv param .raw outcome hold :: rest) =
+      ((runAll w rest).1, .err ioError :: (runAll w rest).2) := by
+  have h1 : runCall w (.unary adv param .raw outcome hold) = (w, [.err ioError]) := by
+    have he := ensure_none_of_not_good adv hadv
+    simp only [runCall, clientSend, hc]
+    rw [unadvertised_request_pointer_refused _ none adv .bad (by rw [he]) rfl, he]
+    simp only [clientReclaim]
+    cases w; simp_all
+  exact ⟨h1, by rw [runAll_cons, h1]; rfl⟩
+
+/-- the same for a stream call: the refusal comes before dispatch, the input the client had
+already sent is drained unread, and the session continues in frame -/
+theorem unadvertised_stream_pointer_is_error_and_session_continues (w : World) (adv : Adv) (param : B)
+    (initErr : Option String) (turns : List Turn) (hold : Bool) (rest : List Call)
+    (hc : w.cached = none) (hadv : ∀ k, adv ≠ .good k)
+    (hfirst : ∀ t ∈ turns.head?, t.via.wellBehaved = true) :
+    runAll w (.stream adv param .raw initErr turns hold :: rest) =
+      ((runAll w rest).1, .err ioError :: (runAll w rest).2) := by
+  have he := ensure_none_of_not_good adv hadv
+  have heng : engaged none adv .bad = none := by simp [engaged, he]
+  have hsn : sendNext none w.segs turns = (w.segs, (sendNext none w.segs turns).2) ∧
+      reclaimOpt w.segs (sendNext none w.segs turns).2 = w.segs := by
+    cases turns with
+    | nil => exact ⟨rfl, rfl⟩
+    | cons t r =>
+      have hv := hfirst t (by simp)
+      cases hvia : t.via with
+      | inline => simp [sendNext, clientSend, hvia, reclaimOpt, clientReclaim]
+      | shm k => simp [sendNext, clientSend, hvia, reclaimOpt, clientReclaim]
+      | force k => rw [hvia] at hv; simp [Via.wellBehaved] at hv
+      | raw => rw [hvia] at hv; simp [Via.wellBehaved] at hv
+  have h1 : runCall w (.stream adv param .raw initErr turns hold) = (w, [.err ioError]) := by
+    simp only [runCall, clientSend, hc, heng]
+    rw [hc] at hsn
+    rw [hsn.1]
+    simp only []
+    rw [unadvertised_request_pointer_refused _ none adv .bad (by rw [he]) rfl, he]
+    simp only [clientReclaim, hsn.2]
+    cases w; simp_all
+  rw [runAll_cons, h1]; rfl
+
+/-- **unadvertised_input_pointer_refused**: in a stream call for which no segment is engaged, an
+input pointer batch ends the stream with exactly one `IOError`; the handler does not run for that
+turn nor for any later one, and the client takes its slot back. A pointer whose offset/length do
+not resolve is refused the same way whatever is engaged. -/
+theorem unadvertised_input_pointer_refused (hold : Bool) (segs : Segs) (held : Held) (t : Turn)
+    (rest : List Turn) (wire : Wire) (hp : wire.isPtr = true) :
+    runTurns none hold segs held (t :: rest) (some wire) = (clientReclaim segs wire, held, [.err ioError]) ∧
+    (∀ shm, runTurns shm hold segs held (t :: rest) (some .bad) = (segs, held, [.err ioError])) := by
+  constructor
+  · cases wire with
+    | inline b => simp [Wire.isPtr] at hp
+    | ptr k off len => simp [runTurns, serverTake]
+    | bad => simp [runTurns, serverTake]
+  · intro shm
+    cases shm with
+    | none => simp [runTurns, serverTake, clientReclaim]
+    | some k => simp [runTurns, serverTake, resolveWire, clientReclaim]
+
+/-! ### Non-vacuity -/
+
+def bigB (id : Nat) : B := { id := id, rows := 1, big := true, est := 4400, len := 300 }
+def smallB (id : Nat) : B := { id := id, rows := 1, big := false, est := 4106, len := 200 }
+
+/-- a well-behaved history that really uses the segment: request, inputs and results all travel
+as pointers, one result is held across calls, the segment is too small for a second large batch
+while the first is held (pipe fallback), then everything is released -/
+def sampleCalls : List Call :=
+  [ .unary (.good 0) (bigB 1) (.shm 0) (.result (bigB 2)) true,
+    .stream .none (bigB 3) (.shm 0) none
+      [ { input := bigB 4, via := .shm 0, outcome := .result (bigB 5) },
+        { input := smallB 6, via := .inline, outcome := .error "ValueError" } ] false,
+    .unary .none (smallB 7) .inline (.result (bigB 8)) false ]
+
+example : ∀ c ∈ sampleCalls, c.wellBehaved = true := by decide
+
+example : (runAll (freshWorld [5000]) sampleCalls).2 =
+    [.ok 2 true, .ok 5 false, .err "ValueError", .ok 8 false] := by decide
+
+example : ((runAll (freshWorld [5000]) sampleCalls).1.segs.get 0).seg.table = [(65536, 300)] ∧
+    (runAll (freshWorld [5000]) sampleCalls).1.held = [(0, 65536)] := by decide
+
+example : ((runAll (freshWorld [5000]) (sampleCalls ++ [.release])).1.segs.get 0).seg.table = [] := by
+  decide
+
+/-- with room for several batches the stream's pointers are really exercised -/
+example : (runAll (freshWorld [20000]) sampleCalls).2 =
+    [.ok 2 true, .ok 5 true, .err "ValueError", .ok 8 false] := by decide
+
+/-- misuse is refused: a raw pointer where nothing was ever advertised -/
+example : (runCall (freshWorld [20000]) (.unary .none (bigB 1) .raw (.result (bigB 2)) false)).2 =
+    [.err ioError] := by decide
 
 end Vgi.Props.C36
